@@ -6,22 +6,18 @@ import Mathlib.Tactic.Linarith
 /-!
 # C32 — property theorems (values survive text round trips; conversion succeeds exactly for whole-string literals)
 
-Model: `SimbodyModel/C32.lean`.
+Model: `SimbodyModel/C32.lean`; the executed `tryConvertDouble/Float/Bool` follow the current `String.cpp` through
+`Gen/StringConv.lean`.  Statements about the pre-repair code live in `SimbodyProofs/C32_history.lean` (not counted).
 
-* acceptance: `generic_accept_iff_whole_string` (the `tryConvertStringTo<T>` template implements the documented rule);
-  `real_coded_accept_iff`, `bool_coded_accept_iff` (what `tryConvertToDouble/Float/Bool` do **as coded**: the unread rest is
-  never looked at); `real_coded_accepts_trailing_junk`, `bool_coded_accepts_trailing_junk` and the concrete witnesses
-  `double_accepts_1_5abc`, `float_accepts_1_5abc`, `bool_accepts_1abc`, `int_rejects_15abc` — **finding F2**: the documented rule
-  is not provable for double/float/bool; `real_fixed_accept_iff_whole_string`, `bool_fixed_accept_iff_whole_string`,
-  `real_fixed_le_coded`: the proposed repair satisfies the rule and only removes acceptances.
-* unformatted streams: `unformatted_roundtrip` (fixed aggregates: scalars, complex, Vec, Mat and nestings),
-  `unformatted_roundtrip_array` (Array_/Vector_ of `k`-scalar elements), for *any* white-space separators;
-  `array_trailing_space_fails` documents that a trailing blank makes the variable-length read fail.
-* XML: `xml_escape_roundtrip` (text and attribute values without the pattern `&#x`), `escape_no_raw_specials`,
-  `xml_hexref_not_roundtrip` — **new finding**: `EncodeString` passes `&#x…;` through unescaped, so such text is not
-  reproduced; `xml_text_examples`.
-* numbers: `double_literal_examples`, `complex_nonfinite_rejected` — **new finding**: `String(std::complex)` writes `NaN`/`Inf`,
-  which `convertTo<std::complex>` cannot read.
+* acceptance: `generic_accept_iff_whole_string` (template logic ⇔ "extraction succeeded and only white space is left"),
+  `real_fixed_accept_iff_whole_string`, `bool_fixed_accept_iff_whole_string`, `conversion_code_recognized`, `current_code_rule`
+  (the rule for the conversions *as the current source has them*), `special_spellings`, `current_code_rejects_trailing_junk`,
+  `decimal_literal_extraction`, `decimal_literal_accept_iff` (an independent literal grammar: what follows a decimal literal
+  decides acceptance), `int_rejects_15abc`, `double_literal_examples`, `complex_nonfinite_rejected` (known finding).
+* unformatted streams: `unformatted_roundtrip`, `unformatted_roundtrip_array` (conditional on the scalar printer/parser pair
+  `conv (sh v) = some v`, which is predicate-only), `array_trailing_space_fails`.
+* XML: `xml_escape_roundtrip`, `escape_no_raw_specials`, `xml_hexref_not_roundtrip` (known finding), `xml_text_examples`,
+  `normalizeNL_of_noCR`, `xml_file_roundtrip_eq_string`, `xml_file_cr_not_roundtrip` (finding: raw CR in a file becomes LF).
 -/
 namespace C32
 
@@ -58,32 +54,6 @@ theorem generic_accept_iff_whole_string {α} (ex : Extract α) (s : List Char) (
 /-- the spellings handled before the stream is consulted -/
 def IsSpecialReal (a : List Char) : Prop := a = spNaN ∨ spPosInf.contains a = true ∨ spNegInf.contains a = true
 
-/-- **as coded**: away from the special spellings `tryConvertToDouble/Float` succeeds iff the extraction does not fail —
-nothing is required of the characters left unread -/
-theorem real_coded_accept_iff {α} (ex : Extract α) (nan pinf ninf : α) (s : List Char) (v : α)
-    (hs : ¬ IsSpecialReal (cleanUp s)) :
-    tryConvertRealCoded ex nan pinf ninf s = some v ↔ ∃ rest, ex (cleanUp s) = some (v, rest) := by
-  unfold IsSpecialReal at hs
-  simp only [not_or] at hs
-  unfold tryConvertRealCoded
-  simp only [hs.1, hs.2.1, hs.2.2, if_false, Bool.false_eq_true]
-  cases h : ex (cleanUp s) with
-  | none => simp
-  | some p => obtain ⟨w, r⟩ := p; simp
-
-/-- **F2, abstractly**: whenever the extraction stops before non-blank characters, the coded conversion accepts although
-the whole-string rule rejects — for every extraction operator and every such string -/
-theorem real_coded_accepts_trailing_junk {α} (ex : Extract α) (nan pinf ninf : α) (s : List Char) (v : α)
-    (junk : List Char) (hs : ¬ IsSpecialReal (cleanUp s))
-    (hex : ex (cleanUp s) = some (v, junk)) (hjunk : junk.all isSpace = false) :
-    tryConvertRealCoded ex nan pinf ninf s = some v ∧ ∀ w, ¬ WholeString ex (cleanUp s) w := by
-  refine ⟨(real_coded_accept_iff ex nan pinf ninf s v hs).2 ⟨junk, hex⟩, ?_⟩
-  rintro w ⟨rest, h1, h2⟩
-  rw [hex] at h1
-  simp only [Option.some.injEq, Prod.mk.injEq] at h1
-  rw [← h1.2, hjunk] at h2
-  exact Bool.false_ne_true h2
-
 /-- the repaired conversion accepts exactly the whole-string literals (after `cleanUp`) -/
 theorem real_fixed_accept_iff_whole_string {α} (ex : Extract α) (nan pinf ninf : α) (s : List Char) (v : α)
     (hs : ¬ IsSpecialReal (cleanUp s)) :
@@ -94,39 +64,6 @@ theorem real_fixed_accept_iff_whole_string {α} (ex : Extract α) (nan pinf ninf
   simp only [hs.1, hs.2.1, hs.2.2, if_false, Bool.false_eq_true]
   exact generic_accept_iff_whole_string ex _ v
 
-/-- the repair only removes acceptances, and never changes a converted value -/
-theorem real_fixed_le_coded {α} (ex : Extract α) (nan pinf ninf : α) (s : List Char) (v : α)
-    (h : tryConvertRealFixed ex nan pinf ninf s = some v) : tryConvertRealCoded ex nan pinf ninf s = some v := by
-  unfold tryConvertRealFixed at h
-  unfold tryConvertRealCoded
-  simp only at h ⊢
-  split_ifs at h ⊢ with h1 h2 h3
-  · exact h
-  · exact h
-  · exact h
-  · obtain ⟨rest, hr, _⟩ := (generic_accept_iff_whole_string ex _ v).1 h
-    simp [hr]
-
-theorem bool_coded_accept_iff (ex : Extract Bool) (s : List Char) (v : Bool)
-    (h1 : cleanUp s ≠ "true".toList) (h2 : cleanUp s ≠ "false".toList) :
-    tryConvertBoolCoded ex s = some v ↔ ∃ rest, ex (cleanUp s) = some (v, rest) := by
-  unfold tryConvertBoolCoded
-  simp only [h1, h2, if_false]
-  cases h : ex (cleanUp s) with
-  | none => simp
-  | some p => obtain ⟨w, r⟩ := p; simp
-
-theorem bool_coded_accepts_trailing_junk (ex : Extract Bool) (s : List Char) (v : Bool) (junk : List Char)
-    (h1 : cleanUp s ≠ "true".toList) (h2 : cleanUp s ≠ "false".toList)
-    (hex : ex (cleanUp s) = some (v, junk)) (hjunk : junk.all isSpace = false) :
-    tryConvertBoolCoded ex s = some v ∧ ∀ w, ¬ WholeString ex (cleanUp s) w := by
-  refine ⟨(bool_coded_accept_iff ex s v h1 h2).2 ⟨junk, hex⟩, ?_⟩
-  rintro w ⟨rest, h1', h2'⟩
-  rw [hex] at h1'
-  simp only [Option.some.injEq, Prod.mk.injEq] at h1'
-  rw [← h1'.2, hjunk] at h2'
-  exact Bool.false_ne_true h2'
-
 theorem bool_fixed_accept_iff_whole_string (ex : Extract Bool) (s : List Char) (v : Bool)
     (h1 : cleanUp s ≠ "true".toList) (h2 : cleanUp s ≠ "false".toList) :
     tryConvertBoolFixed ex s = some v ↔ WholeString ex (cleanUp s) v := by
@@ -135,22 +72,6 @@ theorem bool_fixed_accept_iff_whole_string (ex : Extract Bool) (s : List Char) (
   exact generic_accept_iff_whole_string ex _ v
 
 /-! ### the concrete witnesses with the libstdc++ extraction model (finding F2) -/
-
-/-- `"1.5abc"` converts to 1.5 as coded; the template rule and the repair reject it -/
-theorem double_accepts_1_5abc :
-    tryConvertRealCoded extractDouble .nan (.inf false) (.inf true) "1.5abc".toList = some (.fin ⟨false, 3 / 2⟩) ∧
-    tryConvertGeneric extractDouble "1.5abc".toList = none ∧
-    tryConvertRealFixed extractDouble .nan (.inf false) (.inf true) "1.5abc".toList = none := by
-  decide +kernel
-
-theorem float_accepts_1_5abc :
-    tryConvertRealCoded extractFloat .nan (.inf false) (.inf true) "1.5abc".toList = some (.fin ⟨false, 3 / 2⟩) ∧
-    tryConvertRealFixed extractFloat .nan (.inf false) (.inf true) "1.5abc".toList = none := by
-  decide +kernel
-
-theorem bool_accepts_1abc :
-    tryConvertBoolCoded extractBool "1abc".toList = some true ∧ tryConvertBoolFixed extractBool "1abc".toList = none := by
-  decide +kernel
 
 /-- the translator recognised the final `return` of all three specialised conversions in the current `String.cpp`
 (either the pinned `!sstream.fail()` or a fail/eof/ws/eof test); if this fails the model cannot follow the code -/
@@ -172,6 +93,88 @@ theorem current_code_rule :
   · unfold tryConvertDouble; rw [if_pos h]; exact real_fixed_accept_iff_whole_string _ _ _ _ s v hs
   · unfold tryConvertFloat; rw [if_pos h]; exact real_fixed_accept_iff_whole_string _ _ _ _ s v hs
   · unfold tryConvertBool; rw [if_pos h]; exact bool_fixed_accept_iff_whole_string _ s v h1 h2
+
+/-! ### the conversions as the current source has them -/
+
+/-- the non-finite spellings `String(double/float)` produces (`NaN`, `Inf`, `-Inf`) and the documented alternatives, in any
+case and with surrounding white space, convert to the corresponding value -/
+theorem special_spellings :
+    tryConvertDouble "NaN".toList = some .nan ∧ tryConvertDouble "Inf".toList = some (.inf false) ∧
+    tryConvertDouble "-Inf".toList = some (.inf true) ∧ tryConvertFloat "NaN".toList = some .nan ∧
+    tryConvertFloat " -INFINITY\n".toList = some (.inf true) ∧ tryConvertDouble "+infinity".toList = some (.inf false) ∧
+    tryConvertBool " TRUE ".toList = some true ∧ tryConvertBool "False".toList = some false := by
+  decide +kernel
+
+/-- for every string whose cleaned form is a special spelling the repaired conversion returns the corresponding constant,
+whatever the extraction operator -/
+theorem real_fixed_special {α} (ex : Extract α) (nan pinf ninf : α) (s : List Char) :
+    (cleanUp s = spNaN → tryConvertRealFixed ex nan pinf ninf s = some nan) ∧
+    (cleanUp s ≠ spNaN → spPosInf.contains (cleanUp s) = true → tryConvertRealFixed ex nan pinf ninf s = some pinf) ∧
+    (cleanUp s ≠ spNaN → spPosInf.contains (cleanUp s) = false → spNegInf.contains (cleanUp s) = true →
+      tryConvertRealFixed ex nan pinf ninf s = some ninf) := by
+  refine ⟨fun h => ?_, fun h1 h2 => ?_, fun h1 h2 h3 => ?_⟩ <;> unfold tryConvertRealFixed <;> simp [*]
+
+/-- **"fails when characters trail the number"** for the conversions of the current tree (translator-tied: this is false,
+and the check alarms, if `String.cpp` goes back to `return !sstream.fail();`) -/
+theorem current_code_rejects_trailing_junk :
+    tryConvertDouble "1.5abc".toList = none ∧ tryConvertDouble "1.5 2".toList = none ∧
+    tryConvertDouble "0x10".toList = none ∧ tryConvertFloat "1.5abc".toList = none ∧
+    tryConvertBool "1abc".toList = none ∧ tryConvertBool "1.0".toList = none ∧
+    tryConvertDouble " 1.5 ".toList = some (.fin ⟨false, 3 / 2⟩) ∧ tryConvertBool " 1 ".toList = some true := by
+  decide +kernel
+
+/-! ### an independent literal grammar -/
+
+/-- **extraction of a decimal literal** `ip.fp` (`ip` nonempty digits, `fp` digits) followed by `rest`, where `rest` is empty
+or starts with a character that is neither a digit nor `e`/`E`: `operator>>(double&)` of the model consumes exactly the
+literal — its value is `strtod`'s — and leaves `rest` untouched (`none` only on overflow) -/
+theorem decimal_literal_extraction (ip fp rest : List Char) (hip : ip ≠ []) (hipd : ip.all isDigit = true)
+    (hfpd : fp.all isDigit = true) (hrest : ∀ c r, rest = c :: r → isDigit c = false ∧ c ≠ 'e' ∧ c ≠ 'E') :
+    extractDouble (ip ++ '.' :: (fp ++ rest)) =
+      (FloatLit.value 53 (-1074) 1024 ⟨false, ip, fp, false, false, false, []⟩).map (fun v => (FV.fin v, rest)) := by
+  unfold extractDouble extractReal
+  rw [scanFloat_decimal ip fp rest hip hipd hfpd hrest]
+  have hv : FloatLit.valid ⟨false, ip, fp, false, false, false, []⟩ = true := by
+    cases ip with
+    | nil => exact absurd rfl hip
+    | cons a b => simp [FloatLit.valid]
+  simp only [hv, if_true]
+
+/-- **acceptance is decided by what follows the literal**: the whole-string rule (generic template / repaired
+conversions) accepts `ip.fp ++ rest` iff `rest` is white space only — e.g. `"1.5abc"`, `"1.5 2"`, `"1.5,"` are rejected,
+`"1.5 "` is accepted — for every such literal that does not overflow -/
+theorem decimal_literal_accept_iff (ip fp rest : List Char) (hip : ip ≠ []) (hipd : ip.all isDigit = true)
+    (hfpd : fp.all isDigit = true) (hrest : ∀ c r, rest = c :: r → isDigit c = false ∧ c ≠ 'e' ∧ c ≠ 'E')
+    (v : RealV) (hval : FloatLit.value 53 (-1074) 1024 ⟨false, ip, fp, false, false, false, []⟩ = some v) :
+    tryConvertGeneric extractDouble (ip ++ '.' :: (fp ++ rest)) = (if rest.all isSpace then some (FV.fin v) else none) := by
+  unfold tryConvertGeneric
+  rw [decimal_literal_extraction ip fp rest hip hipd hfpd hrest, hval]
+  rfl
+
+/-- the integer-form literal `ip` (no `.`) likewise, `rest` not starting with a digit, `.`, `e`, `E` -/
+theorem integer_literal_accept_iff (ip rest : List Char) (hip : ip ≠ []) (hipd : ip.all isDigit = true)
+    (hrest : ∀ c r, rest = c :: r → isDigit c = false ∧ c ≠ '.' ∧ c ≠ 'e' ∧ c ≠ 'E')
+    (v : RealV) (hval : FloatLit.value 53 (-1074) 1024 ⟨false, ip, [], false, false, false, []⟩ = some v) :
+    tryConvertGeneric extractDouble (ip ++ rest) = (if rest.all isSpace then some (FV.fin v) else none) := by
+  unfold tryConvertGeneric extractDouble extractReal
+  rw [scanFloat_integer ip rest hip hipd hrest]
+  have hv : FloatLit.valid ⟨false, ip, [], false, false, false, []⟩ = true := by
+    cases ip with
+    | nil => exact absurd rfl hip
+    | cons a b => simp [FloatLit.valid]
+  simp only [hv, if_true, hval]
+  rfl
+
+/-- non-vacuity: `"1.5" ++ "abc"` satisfies every hypothesis (value 3/2) and is therefore rejected, `"1.5" ++ " "` accepted -/
+example : tryConvertGeneric extractDouble ("1".toList ++ '.' :: ("5".toList ++ "abc".toList)) = none ∧
+    tryConvertGeneric extractDouble ("1".toList ++ '.' :: ("5".toList ++ " ".toList)) = some (FV.fin ⟨false, 3 / 2⟩) := by
+  constructor
+  · rw [decimal_literal_accept_iff "1".toList "5".toList "abc".toList (by decide) (by decide) (by decide)
+      (fun c r h => by injection h with e _; rw [← e]; decide) ⟨false, 3 / 2⟩ (by decide +kernel)]
+    decide
+  · rw [decimal_literal_accept_iff "1".toList "5".toList " ".toList (by decide) (by decide) (by decide)
+      (fun c r h => by injection h with e _; rw [← e]; decide) ⟨false, 3 / 2⟩ (by decide +kernel)]
+    decide
 
 /-- the `int` path (generic template) is right -/
 theorem int_rejects_15abc :
@@ -280,6 +283,53 @@ theorem xml_hexref_not_roundtrip :
     textRoundTrip true "A&#x42;C".toList = some "ABC".toList ∧
     attrRoundTrip false "v=&#x41;".toList = some "v=A".toList ∧
     encode true false "&#x<b>;".toList = "&#x<b>;".toList := by
+  decide +kernel
+
+/-- a string without carriage returns is untouched by the file reader's end-of-line normalisation -/
+theorem normalizeNL_of_noCR (s : List Char) (h : '\r' ∉ s) : normalizeNL s = s := by
+  induction s with
+  | nil => rfl
+  | cons c r ih =>
+    have hc : c ≠ '\r' := fun e => h (by simp [e])
+    have hr : '\r' ∉ r := fun e => h (by simp [e])
+    cases r with
+    | nil => simp [normalizeNL, hc]
+    | cons d r' =>
+      have : normalizeNL (c :: d :: r') = c :: normalizeNL (d :: r') := by
+        simp [normalizeNL, hc]
+      rw [this, ih hr]
+
+/-- through a **file**, values free of carriage returns (and of `&#x`) behave exactly as through a string -/
+theorem xml_file_roundtrip_eq_string (cond : Bool) (s : List Char) (h : hasHexRef s = false) (hcr : '\r' ∉ s) :
+    textRoundTripFile cond s = textRoundTrip cond s ∧ attrRoundTripFile cond s = attrRoundTrip cond s := by
+  have henc : ∀ kq, '\r' ∉ encode kq cond s := by
+    intro kq
+    rw [encode_noHex kq cond s h]
+    simp only [List.mem_flatMap, not_exists, not_and]
+    intro c hc
+    exact encChar_noCR kq cond c (fun e => hcr (e ▸ hc))
+  constructor
+  · unfold textRoundTripFile textRoundTrip
+    rw [normalizeNL_of_noCR]
+    intro hm
+    rcases List.mem_append.1 hm with h1 | h1
+    · exact henc true h1
+    · revert h1; decide
+  · unfold attrRoundTripFile attrRoundTrip
+    rw [normalizeNL_of_noCR]
+    intro hm
+    rcases List.mem_append.1 hm with h1 | h1
+    · exact henc false h1
+    · revert h1; decide
+
+/-- **finding**: with white space kept, `EncodeString` writes a carriage return raw and `LoadFile` turns it into a line
+feed: `a\rb\r\nc` comes back from a file as `a\nb\nc` (attribute `x\ry` as `x\ny`), while the string path and the
+condensing mode (which writes `&#x0D;`) reproduce it -/
+theorem xml_file_cr_not_roundtrip :
+    textRoundTripFile false "a\rb\r\nc".toList = some "a\nb\nc".toList ∧
+    attrRoundTripFile false "x\ry".toList = some "x\ny".toList ∧
+    textRoundTrip false "a\rb\r\nc".toList = some "a\rb\r\nc".toList ∧
+    attrRoundTripFile true "x\ry".toList = some "x\ry".toList := by
   decide +kernel
 
 /-- sample text values through write → read: escapes, control characters, condensing, blank values -/
